@@ -49,6 +49,18 @@ def _error_ladder(fn):
     return out
 
 
+def consumer_sites():
+    """Every reference to a namer in the source of the repo under test (py/props/c10scan.py)."""
+    import os
+
+    import rattr
+    from props import c10scan
+
+    root = os.path.dirname(os.path.dirname(os.path.realpath(rattr.__file__)))
+    rows = [c10scan.key(s) for s in c10scan.scan(root)]
+    return llist(rows, lambda r: f"({lstr(r[0])}, {lstr(r[1])}, {lstr(r[2])}, {r[3]}, {lstr(r[4])})")
+
+
 def tables():
     import rattr.ast._util as au
     import rattr.analyser.util as old
@@ -73,4 +85,6 @@ def tables():
         f"def errorLadderNew : List (String × String) := {ladder(ladder_new)}",
         "/-- the `_error_class` ladder of `get_basename_fullname_pair`, in source order. -/",
         f"def errorLadderOld : List (String × String) := {ladder(ladder_old)}",
+        "/-- every reference to a namer in the source: (file, enclosing scope, namer, ordinal, consuming statement). -/",
+        f"def consumerSites : List (String × String × String × Nat × String) := {consumer_sites()}",
     ]
